@@ -100,9 +100,17 @@ func noopIntrinsic(fr *frame, fn *ssa.Function, args []value) value {
 
 // ---- opaque errors and other engine-defined dynamic types ----
 
-func (P *Program) isEngineType(t types.Type) bool { return t == P.opaqErr }
+func (P *Program) isEngineType(t types.Type) bool { return t == P.opaqErr || t == rtypeNamed }
 
 func (P *Program) engineImplements(t types.Type, it *types.Interface) bool {
+	if t == rtypeNamed {
+		for i := 0; i < it.NumMethods(); i++ {
+			if rtypeMethods[it.Method(i).Name()] == nil && it.Method(i).Exported() {
+				return false
+			}
+		}
+		return true
+	}
 	if t == P.opaqErr {
 		// implements exactly interfaces whose only method is Error() string
 		return it.NumMethods() == 0 || (it.NumMethods() == 1 && it.Method(0).Name() == "Error")
@@ -111,6 +119,12 @@ func (P *Program) engineImplements(t types.Type, it *types.Interface) bool {
 }
 
 func (P *Program) engineMethod(t types.Type, name string) *boundIntrinsic {
+	if t == rtypeNamed {
+		if m := rtypeMethods[name]; m != nil {
+			return m
+		}
+		panic(unsupported("reflect.Type method " + name))
+	}
 	if t == P.opaqErr && name == "Error" {
 		return &boundIntrinsic{name: "opaqueError.Error", fn: func(fr *frame, args []value) value {
 			return args[0].(structure)[0]
@@ -434,6 +448,12 @@ func init() {
 	} {
 		reg(n, retZero)
 	}
+	ident := func(fr *frame, fn *ssa.Function, args []value) value { return args[0] }
+	reg("internal/abi.NoEscape", ident)
+	reg("strings.noescape", ident)
+	reg("internal/abi.Escape", ident)
+	reg("internal/stringslite.Clone", ident)
+	reg("strings.Clone", ident)
 	reg("(*sync.Mutex).TryLock", func(fr *frame, fn *ssa.Function, args []value) value { return fr.in.ts.True })
 	reg("(*sync.Pool).Get", func(fr *frame, fn *ssa.Function, args []value) value {
 		p := args[0].(*value)
